@@ -113,6 +113,22 @@ func (x *X) binop(fr *frame, in *ssa.BinOp) Val {
 				}
 			}
 		}
+		if _, signed := intInfo(t); !signed {
+			bits, _ := intInfo(t)
+			switch in.Op {
+			case token.AND, token.OR, token.XOR, token.AND_NOT:
+				x.bvAxioms()
+				fn := map[token.Token]string{token.AND: "bv.and", token.OR: "bv.or", token.XOR: "bv.xor", token.AND_NOT: "bv.andnot"}[in.Op]
+				r := x.define("bvop", SInt, "("+fn+" "+at+" "+bt+")")
+				x.assume(fmt.Sprintf("(and (<= 0 %s) (< %s %s))", r, r, pow2(bits)))
+				return S{r, SInt}
+			case token.SHL:
+				if c, ok := constInt(in.X); ok && c == 1 {
+					x.bvAxioms()
+					return S{x.define("shl1", SInt, fmt.Sprintf("(ite (and (<= 0 %s) (< %s %d)) (bv.pow2 %s) 0)", bt, bt, bits, bt)), SInt}
+				}
+			}
+		}
 		unsup("integer operator %s in Int mode", in.Op)
 	case kString:
 		at, bt := a.(S).T, b.(S).T
@@ -470,7 +486,7 @@ func (x *X) forLeaves(t types.Type, prefix string, f func(suffix, sort, zero str
 	case kInt, kPointer, kMap:
 		f(prefix, SInt, "0")
 	case kString:
-		f(prefix, SStr, "gs.empty")
+		f(prefix, SStr, "0.0")
 	case kFloat:
 		f(prefix, SReal, "0.0")
 	case kSlice:
@@ -485,6 +501,11 @@ func (x *X) forLeaves(t types.Type, prefix string, f func(suffix, sort, zero str
 		for i := 0; i < st.NumFields(); i++ {
 			x.forLeaves(st.Field(i).Type(), prefix+"."+st.Field(i).Name(), f)
 		}
+	case kFunc:
+		// function values are not stored in the modelled heap (loading one is outside the subset)
+	case kArray:
+		at := t.Underlying().(*types.Array)
+		x.forLeaves(at.Elem(), prefix, f)
 	default:
 		unsup("heap leaves of %s", t)
 	}
@@ -496,6 +517,7 @@ func (x *X) indexAddr(fr *frame, in *ssa.IndexAddr) Val {
 	switch v := xv.(type) {
 	case Slice:
 		el := in.X.Type().Underlying().(*types.Slice).Elem()
+		x.addPoint(iv, "idx")
 		x.oblige("index", x.site(in.Pos(), in.String()), in.Pos(), fmt.Sprintf("(and (<= 0 %s) (< %s %s))", iv, iv, v.Len))
 		return Ptr{Kind: pElem, Arr: v.Arr, Idx: x.define("ix", SInt, "(+ "+v.Off+" "+iv+")"), Root: el}
 	case Ptr:
@@ -645,16 +667,44 @@ func (x *X) typeAssert(fr *frame, in *ssa.TypeAssert) Val {
 func (x *X) mapLoc(mt *types.Map, ref string, key Val) loc {
 	ks := x.flatten(key)
 	l := loc{key: "M:" + typeKey(mt), idx: []string{ref}, idxSorts: []string{SInt}}
-	for _, k := range ks {
-		l.idx = append(l.idx, k.T)
-		l.idxSorts = append(l.idxSorts, k.Sort)
+	if len(ks) == 1 {
+		l.idx = append(l.idx, ks[0].T)
+		l.idxSorts = append(l.idxSorts, ks[0].Sort)
+		return l
 	}
+	// composite keys are numbered by an injective function (injectivity through projections)
+	fn := "mkkey." + sanitize(typeKey(mt.Key()))
+	if _, ok := x.sc.declared[fn]; !ok {
+		var sorts, vars, decls []string
+		for i, k := range ks {
+			sorts = append(sorts, k.Sort)
+			vars = append(vars, fmt.Sprintf("k%d", i))
+			decls = append(decls, fmt.Sprintf("(k%d %s)", i, k.Sort))
+		}
+		x.sc.Declare(fn, sorts, SInt)
+		app := "(" + fn + " " + strings.Join(vars, " ") + ")"
+		for i, k := range ks {
+			pr := fmt.Sprintf("%s.p%d", fn, i)
+			x.sc.Declare(pr, []string{SInt}, k.Sort)
+			x.sc.Assert(fmt.Sprintf("(forall (%s) (! (= (%s %s) k%d) :pattern (%s)))", strings.Join(decls, " "), pr, app, i, app))
+		}
+	}
+	var args []string
+	for _, k := range ks {
+		args = append(args, k.T)
+	}
+	kid := "(" + fn + " " + strings.Join(args, " ") + ")"
+	if !x.inline && !(x.sc.paramName != "" && strings.Contains(kid, x.sc.paramName)) {
+		kid = x.define("key", SInt, kid)
+	}
+	l.idx = append(l.idx, kid)
+	l.idxSorts = append(l.idxSorts, SInt)
 	return l
 }
 
 func (x *X) mapHas(mt *types.Map, ref string, key Val) string {
 	l := x.mapLoc(mt, ref, key)
-	hk := l.key + "#has"
+	hk := l.key + "#mhas"
 	if _, ok := x.heapSorts[hk]; !ok {
 		// first use: the nil map has no keys
 		h := x.heapCur(hk, heapSortFor(l, SBool))
@@ -668,17 +718,17 @@ func (x *X) mapHas(mt *types.Map, ref string, key Val) string {
 		}
 		x.sc.Assert(fmt.Sprintf("(= (select %s 0) %s)", h, inner))
 	}
-	return x.readLeaf(l, "#has", SBool)
+	return x.readLeaf(l, "#mhas", SBool)
 }
 
 func (x *X) mapLen(mt *types.Map, ref string) string {
 	l := loc{key: "M:" + typeKey(mt), idx: []string{ref}}
-	hk := l.key + "#len"
+	hk := l.key + "#mlen"
 	if _, ok := x.heapSorts[hk]; !ok {
 		h := x.heapCur(hk, arrSort(SInt))
 		x.sc.Assert(fmt.Sprintf("(= (select %s 0) 0)", h))
 	}
-	n := x.readLeaf(l, "#len", SInt)
+	n := x.readLeaf(l, "#mlen", SInt)
 	x.assume("(>= " + n + " 0)")
 	return n
 }
@@ -714,7 +764,7 @@ func (x *X) makeMap(t types.Type) Val {
 	dummy := x.zero(mt.Key())
 	l := x.mapLoc(mt, r, dummy)
 	_ = x.mapHas(mt, r, dummy) // make sure the heap exists
-	hk := l.key + "#has"
+	hk := l.key + "#mhas"
 	srt := heapSortFor(l, SBool)
 	inner := "false"
 	for i := len(l.idxSorts) - 1; i >= 1; i-- {
@@ -728,7 +778,7 @@ func (x *X) makeMap(t types.Type) Val {
 	x.st.heap[hk] = x.define("h."+hk, srt, fmt.Sprintf("(store %s %s %s)", h, r, inner))
 	x.written[hk] = true
 	_ = x.mapLen(mt, r)
-	x.writeLeaf(loc{key: "M:" + typeKey(mt), idx: []string{r}}, "#len", SInt, "0")
+	x.writeLeaf(loc{key: "M:" + typeKey(mt), idx: []string{r}}, "#mlen", SInt, "0")
 	return MapV{r}
 }
 
@@ -741,8 +791,8 @@ func (x *X) mapUpdate(fr *frame, in *ssa.MapUpdate) {
 	n := x.mapLen(mt, m.Ref)
 	l := x.mapLoc(mt, m.Ref, key)
 	x.storeAt(l, mt.Elem(), x.get(fr, in.Value))
-	x.writeLeaf(l, "#has", SBool, "true")
-	x.writeLeaf(loc{key: "M:" + typeKey(mt), idx: []string{m.Ref}}, "#len", SInt, fmt.Sprintf("(ite %s %s (+ %s 1))", has, n, n))
+	x.writeLeaf(l, "#mhas", SBool, "true")
+	x.writeLeaf(loc{key: "M:" + typeKey(mt), idx: []string{m.Ref}}, "#mlen", SInt, fmt.Sprintf("(ite %s %s (+ %s 1))", has, n, n))
 }
 
 func (x *X) makeSlice(fr *frame, in *ssa.MakeSlice) Val {
@@ -800,4 +850,44 @@ func (x *X) rangeNext(fr *frame, in *ssa.Next) Val {
 	x.st.cells[it.Cell] = S{x.define("rng.pos", SInt, ite(okT, "(+ "+pos+" "+w+")", pos)), SInt}
 	x.externs["range over string: rune decoding as utf8.DecodeRuneInString (ASCII exact, otherwise rune >= 0x80, width 1..4 within the string)"] = true
 	return Tup{E: []Val{S{okT, SBool}, S{pos, SInt}, S{r, SInt}}}
+}
+
+// bvAxioms declares the bit-level view of non-negative integers used for
+// bitmask code in Int mode: bv.bit(x,k) is bit k of x; and/or/xor/andnot are
+// characterised bitwise; bv.pow2 is a single bit; extensionality and the
+// lowest set bit (bv.tz) connect bits and numbers. These are facts about
+// machine words assumed here, not proved (listed in the trusted base).
+func (x *X) bvAxioms() {
+	if x.externs["bit operations axiomatised over Int (bv.bit/and/or/xor/andnot/pow2/tz; extensionality on 64-bit words)"] {
+		return
+	}
+	x.externs["bit operations axiomatised over Int (bv.bit/and/or/xor/andnot/pow2/tz; extensionality on 64-bit words)"] = true
+	sc := x.sc
+	sc.Declare("bv.bit", []string{SInt, SInt}, SBool)
+	for _, f := range []string{"bv.and", "bv.or", "bv.xor", "bv.andnot"} {
+		sc.Declare(f, []string{SInt, SInt}, SInt)
+	}
+	sc.Declare("bv.pow2", []string{SInt}, SInt)
+	sc.Declare("bv.tz", []string{SInt}, SInt)
+	sc.Declare("bv.diff", []string{SInt, SInt}, SInt)
+	a := func(t string) { sc.Assert(t) }
+	a("(forall ((x Int) (y Int) (k Int)) (! (= (bv.bit (bv.and x y) k) (and (bv.bit x k) (bv.bit y k))) :pattern ((bv.bit (bv.and x y) k))))")
+	a("(forall ((x Int) (y Int) (k Int)) (! (= (bv.bit (bv.or x y) k) (or (bv.bit x k) (bv.bit y k))) :pattern ((bv.bit (bv.or x y) k))))")
+	a("(forall ((x Int) (y Int) (k Int)) (! (= (bv.bit (bv.xor x y) k) (xor (bv.bit x k) (bv.bit y k))) :pattern ((bv.bit (bv.xor x y) k))))")
+	a("(forall ((x Int) (y Int) (k Int)) (! (= (bv.bit (bv.andnot x y) k) (and (bv.bit x k) (not (bv.bit y k)))) :pattern ((bv.bit (bv.andnot x y) k))))")
+	a("(forall ((x Int) (y Int)) (! (=> (and (<= 0 x) (<= 0 y)) (and (<= 0 (bv.and x y)) (<= (bv.and x y) x) (<= (bv.and x y) y))) :pattern ((bv.and x y))))")
+	a("(forall ((x Int) (y Int)) (! (=> (and (<= 0 x) (<= 0 y)) (and (<= x (bv.or x y)) (<= y (bv.or x y)) (<= (bv.or x y) (+ x y)))) :pattern ((bv.or x y))))")
+	a("(forall ((x Int) (y Int)) (! (=> (and (<= 0 x) (<= 0 y)) (and (<= 0 (bv.andnot x y)) (<= (bv.andnot x y) x))) :pattern ((bv.andnot x y))))")
+	a("(forall ((x Int) (y Int)) (! (=> (and (<= 0 x) (<= 0 y)) (and (<= 0 (bv.xor x y)) (<= (bv.xor x y) (+ x y)))) :pattern ((bv.xor x y))))")
+	// removing a set bit makes the number smaller; adding a clear bit makes it larger
+	a("(forall ((x Int) (k Int)) (! (=> (and (<= 0 x) (<= 0 k) (< k 64) (bv.bit x k)) (= (bv.andnot x (bv.pow2 k)) (- x (bv.pow2 k)))) :pattern ((bv.andnot x (bv.pow2 k)))))")
+	a("(forall ((x Int) (k Int)) (! (=> (and (<= 0 x) (<= 0 k) (< k 64)) (= (bv.or x (bv.pow2 k)) (ite (bv.bit x k) x (+ x (bv.pow2 k))))) :pattern ((bv.or x (bv.pow2 k)))))")
+	a("(forall ((k Int)) (! (=> (and (<= 0 k) (< k 64)) (and (> (bv.pow2 k) 0) (<= (bv.pow2 k) 9223372036854775808))) :pattern ((bv.pow2 k))))")
+	a("(forall ((k Int) (j Int)) (! (=> (and (<= 0 k) (< k 64)) (= (bv.bit (bv.pow2 k) j) (= j k))) :pattern ((bv.bit (bv.pow2 k) j))))")
+	a("(forall ((k Int)) (! (=> (and (<= 0 k) (< k 8)) (<= (bv.pow2 k) 128)) :pattern ((bv.pow2 k))))")
+	a("(forall ((k Int)) (! (not (bv.bit 0 k)) :pattern ((bv.bit 0 k))))")
+	a("(forall ((x Int)) (! (=> (> x 0) (and (<= 0 (bv.tz x)) (< (bv.tz x) 64) (bv.bit x (bv.tz x)))) :pattern ((bv.tz x))))")
+	a("(forall ((x Int) (j Int)) (! (=> (and (> x 0) (<= 0 j) (< j (bv.tz x))) (not (bv.bit x j))) :pattern ((bv.tz x) (bv.bit x j))))")
+	// extensionality (instantiated where a specification mentions bv.diff)
+	a("(forall ((x Int) (y Int)) (! (=> (and (<= 0 x) (<= 0 y) (< x 18446744073709551616) (< y 18446744073709551616) (not (= x y))) (and (<= 0 (bv.diff x y)) (< (bv.diff x y) 64) (not (= (bv.bit x (bv.diff x y)) (bv.bit y (bv.diff x y)))))) :pattern ((bv.diff x y))))")
 }
